@@ -5,13 +5,14 @@ import (
 	"io"
 	"net"
 	"strings"
+	"time"
 )
 
 // EPConfig is a stack-neutral description of an endpoint configuration.
 type EPConfig struct {
 	Suites         []uint16 `json:"suites"` // nil: library default
 	Ident          string   `json:"ident"`  // which key pairs: "srv","srv2","cli","cli-sig","none","untrusted","expired","future","cli-untrusted","cli-expired","cli-wrongeku","rsa","ed"
-	Roots          string   `json:"roots"`  // "ca" (default), "other", "none"
+	Roots          string   `json:"roots"`  // "ca" (default), "other", "none", "rootcas-only"
 	Auth           int      `json:"auth"`   // ClientAuthType (server)
 	ALPN           []string `json:"alpn"`
 	ServerName     string   `json:"sni"`
@@ -30,6 +31,12 @@ type EPConfig struct {
 	RandSeed       uint64   `json:"rand_seed"`                  // 0: crypto/rand
 	CertVia        string   `json:"cert_via,omitempty"`         // "" Certificates list; "cb" Get* callbacks; "mixed" signing pair in the list, encryption pair by callback
 	TimeShiftYears int      `json:"time_shift_years,omitempty"` // the configuration's clock = the fixed clock + this many years
+	TimeShiftMin   int      `json:"time_shift_min,omitempty"`   // ... + this many minutes
+}
+
+// Clock is the configuration's (fixed) current time.
+func (e EPConfig) Clock() time.Time {
+	return Now().AddDate(e.TimeShiftYears, 0, 0).Add(time.Duration(e.TimeShiftMin) * time.Minute)
 }
 
 // EPResult is the stack-neutral projection of what an endpoint observed.
